@@ -440,8 +440,8 @@ def run(ctx):
     by_scope = {}
     for s in states:
         by_scope.setdefault(s["scope"], []).append(s)
-    budget = {"orient": ctx.pick(160, 576), "self": ctx.pick(60, 2000), "select": ctx.pick(380, 9000),
-              "motion": ctx.pick(200, 5000)}
+    budget = {"orient": ctx.pick(120, 576), "self": ctx.pick(50, 2000), "select": ctx.pick(300, 9000),
+              "motion": ctx.pick(180, 5000)}
     chosen = []
     for scope, lst in sorted(by_scope.items()):
         keyed = sorted(lst, key=lambda t: core.stable_hash([seed, t]))
